@@ -46,6 +46,14 @@ def replay(col, case):
     col.count(1)
     if got is not None and (np.shape(got) != (n, 3) or not np.array_equal(np.asarray(got, dtype=float), exp)):
         col.violation("quantile_score-wrong-value-int-input", dict(rep, expected=exp.tolist(), observed=np.asarray(got).tolist()))
+    # integer-typed estimates against observations that are NOT whole numbers (o + 1/2): ScoresProps!PinballHalf
+    exph = np.array([[float(fr(x)) for x in row] for row in case["scoreh"]])
+    for dt_ in ("int64", "int16"):
+        got = call("quantile_score", scores.quantile_score, y_tau.astype(dt_), obs + 0.5, taus)
+        col.count(1)
+        if got is not None and (np.shape(got) != (n, 3) or not np.allclose(np.asarray(got, dtype=float), exph, rtol=1e-12, atol=0)):
+            col.violation("quantile_score-wrong-value-int-estimates-fractional-observations",
+                          dict(rep, expected=exph.tolist(), observed=np.asarray(got).tolist()))
     for shape_name, yt, yo in (("n", est.copy(), obs.copy()), ("n1", est.reshape(n, 1), obs.reshape(n, 1)),
                                ("n-vs-n1", est.copy(), obs.reshape(n, 1))):
         got = call("quantile_score", scores.quantile_score, yt, yo, taus[1:2])
